@@ -5,7 +5,10 @@ import (
 	"fmt"
 	"html/template"
 	"io"
+	"os"
+	"os/exec"
 	"runtime"
+	"strconv"
 	"strings"
 	"sync"
 	"sync/atomic"
@@ -246,7 +249,7 @@ func c16Run(c *Ctx, i int, r *gen.R) {
 		}
 		j.slow = slow
 		if g%2 == 0 {
-			j.slowYields = 4000 // half of the instances take long over their text, the others answer at once
+			j.slowYields = 300 // half of the instances take long over their text, the others answer at once
 		}
 		jobs[g] = j
 	}
@@ -447,6 +450,131 @@ func c16InFlight(c *Ctx, i int, r *gen.R) {
 	}
 }
 
+// ---- long tables rendered at the same time
+
+// c16Long: 24-48 goroutines each render a table of their own with 512-1030 rows ten times at the same time:
+// whatever a renderer does differently for long tables (chunking, helpers, limits on helpers) it does here under
+// contention.  Every output must equal the same table rendered alone.
+func c16Long(c *Ctx, i int, r *gen.R) {
+	G := []int{24, 32, 48}[i%3]
+	desc := map[string]interface{}{"goroutines": G, "renders_per_goroutine": c16LongRounds, "case": i}
+	c.Case = desc
+	c.Rec.Eval(gen.Hash64("long", fmt.Sprint(i)), true)
+	// in this (race-detector) process ...
+	if msg, stack := c16LongWork(8, i, 4); msg != "" { // a small batch here (the detector watches), the full one in the child
+		if stack != "" {
+			c.Rec.ViolateStack("panic-in-concurrent-render@"+PanicSite(stack), msg, desc, stack)
+		} else {
+			c.Rec.Violate("concurrent-output-differs:long-table", msg, desc)
+		}
+		return
+	}
+	c.Rec.Count("batches_of_long_tables(race build)", 1)
+	// ... and in a child built without the race detector, whose timing is that of a production binary: output
+	// equality is a question about schedules, and the detector's slowdown closes windows that are open without it
+	exe := os.Getenv("VERIF_PLAIN_EXE")
+	if exe == "" {
+		c.Rec.Count("plain_binary_unavailable(check started without run.sh)", 1)
+		return
+	}
+	out, err := exec.Command(exe, "-aux", "c16long", strconv.Itoa(G), strconv.Itoa(i)).CombinedOutput()
+	txt := strings.TrimSpace(string(out))
+	switch {
+	case err != nil:
+		c.Rec.Violate("long-tables:child-died", fmt.Sprintf("the child process rendering %d long tables concurrently died: %v; output %q", G, err, tail(txt, 3000)), desc)
+	case strings.HasPrefix(txt, "BAD:"):
+		c.Rec.Violate("concurrent-output-differs:long-table", txt+" [in a binary built without the race detector]", desc)
+	case strings.HasSuffix(txt, "OK"):
+		c.Rec.Count("batches_of_long_tables(plain build)", 1)
+	default:
+		c.Rec.Inconclusive("long-table child printed neither OK nor BAD: " + tail(txt, 500))
+	}
+}
+
+const c16LongRounds = 10
+
+func init() {
+	auxModes["c16long"] = func(args []string) int {
+		if len(args) < 2 {
+			return 3
+		}
+		G, _ := strconv.Atoi(args[0])
+		i, _ := strconv.Atoi(args[1])
+		for rep := 0; rep < 3; rep++ {
+			if msg, _ := c16LongWork(G, i+rep*1000, c16LongRounds); msg != "" {
+				fmt.Println("BAD: " + msg)
+				return 0
+			}
+		}
+		fmt.Println("OK")
+		return 0
+	}
+}
+
+// c16LongWork runs one batch; it returns a description of the first difference (and the stack, for a panic).
+func c16LongWork(G, salt, rounds int) (string, string) {
+	decos := []string{"utf8-heavy", "ascii-simple", "utf8-light", "none", "utf8-double", "utf8-light-curved"}
+	rowsOf := func(g int) int { return []int{512, 520, 600, 1030, 1500}[(g+salt)%5] }
+	build := func(g int) *texttable.TextTable {
+		t := texttable.New()
+		t.AddHeaders("n", "text")
+		for k := 0; k < rowsOf(g); k++ {
+			if k%97 == 50 {
+				t.AddSeparator()
+				continue
+			}
+			t.AddRowItems(k, fmt.Sprintf("g%d row %d", g, k))
+		}
+		return t
+	}
+	// one wrapper per goroutine, switched through the decorations round by round; the last round is CSV
+	render := func(t *texttable.TextTable, round int) (string, error) {
+		if round == rounds-1 {
+			return csv.Wrap(t).Render()
+		}
+		if _, err := t.SetDecorationNamed(decos[round%len(decos)]); err != nil {
+			return "", err
+		}
+		return t.Render()
+	}
+	got := make([][]string, G)
+	var wg sync.WaitGroup
+	var mu sync.Mutex
+	panicMsg, panicStack := "", ""
+	start := make(chan struct{})
+	for g := 0; g < G; g++ {
+		wg.Add(1)
+		go func(g int) {
+			defer wg.Done()
+			t := build(g)
+			got[g] = make([]string, rounds)
+			<-start
+			for k := 0; k < rounds; k++ {
+				if p, val, st := Guard(func() { got[g][k], _ = render(t, k) }); p {
+					mu.Lock()
+					panicMsg, panicStack = fmt.Sprintf("goroutine %d rendering its %d-row table (round %d) panicked: %v", g, rowsOf(g), k, val), st
+					mu.Unlock()
+				}
+			}
+		}(g)
+	}
+	close(start)
+	wg.Wait()
+	if panicMsg != "" {
+		return panicMsg, panicStack
+	}
+	for g := 0; g < G; g++ {
+		t := build(g)
+		for k := 0; k < rounds; k++ {
+			want, _ := render(t, k)
+			if got[g][k] != want {
+				return fmt.Sprintf("%d goroutines each rendering a long table of their own %d times: goroutine %d (%d rows), render %d produced %d bytes / %d lines, the same table rendered alone %d bytes / %d lines", G, rounds, g, rowsOf(g), k+1, len(got[g][k]), strings.Count(got[g][k], "\n"), len(want), strings.Count(want, "\n")), ""
+			}
+		}
+	}
+	return "", ""
+}
+
 func init() {
 	register(&Prop{
 		ID:     "C16",
@@ -461,6 +589,7 @@ func init() {
 		},
 		Phases: []Phase{
 			{Name: "barrier-released batches of goroutines building and rendering their own tables", N: Fixed(24, 1200), Run: func(c *Ctx, i int, r *gen.R) { withProcs(c, func() { c16Run(c, i, r) }) }},
+			{Name: "24-48 goroutines each rendering a table of 512-1500 rows of their own ten times (nine as text through one wrapper, once as CSV) at once, in this process and in a child built without the race detector", N: Fixed(2, 60), Run: func(c *Ctx, i int, r *gen.R) { c16Long(c, i, r) }}, // always on all processors: the point is overlap
 			{Name: "65-257 renders of independent tables all in flight at the same instant (each blocked in its first Write until all are there)", N: Fixed(12, 240), Run: func(c *Ctx, i int, r *gen.R) { withProcs(c, func() { c16InFlight(c, i, r) }) }},
 		},
 	})
